@@ -109,8 +109,16 @@ EamModels(Tg) == UNION {EamModelsOver(Tg, 1..k, "eam", FALSE) : k \in 1..MaxSp}
 
 \* ADP: dipole / quadrupole declarations are independent oriented subsets; to keep the space small the pair
 \* potentials are all declared or none
-AdpModels(Tg) == UNION {{mm \in EamModelsOver(Tg, 1..k, "adp", TRUE) :
-                       Len(mm.pots) \in {0, (k * (k + 1)) \div 2}} : k \in 1..MaxSp}
+\* (built directly: filtering EamModelsOver would first construct every pair subset x dipole subset x quadrupole subset).
+\* For three species the quadrupole declarations are tied to the dipole ones (none, the same pairs the other way round, all).
+QuadChoices(S, DP) == IF Cardinality(S) <= 2 THEN OrientedSubsets(S)
+                      ELSE {{}, {<<p[2], p[1]>> : p \in DP}, {<<a, b>> \in S \X S : a >= b}}
+AdpModelsOver(Tg, S) ==
+  UNION {{[fam |-> "adp", tgt |-> t, nr |-> n, nrho |-> nh, pots |-> PotSeqOf(P), els |-> e,
+           embedDecl |-> S, densDecl |-> (S \X {0}), dip |-> PotSeqOf(DP), quad |-> PotSeqOf(QP)] :
+             t \in Tg, n \in NRs, nh \in NRhos, P \in {{}, {<<a, b>> \in S \X S : a <= b}}, e \in Perms(S), QP \in QuadChoices(S, DP)} :
+         DP \in OrientedSubsets(S)}
+AdpModels(Tg) == UNION {AdpModelsOver(Tg, 1..k) : k \in 1..MaxSp}
 
 \* Finnis-Sinclair family: densDecl is ANY subset of ordered pairs (site, neighbour); embedDecl the declared
 \* embedding entries; every species mentioned anywhere becomes an element.  els lists the embed-declared
